@@ -2,7 +2,7 @@
 
 from __future__ import annotations
 
-import ast
+import ast, re
 import collections
 import copy
 import json
@@ -22,11 +22,13 @@ HDR = ('From Coq Require Import List Bool Arith.\nFrom PF Require Import models.
 
 
 def scenarios():
-    from fst.match import M, MBinOp, MCall, MList, MAttribute, MQSTAR, MTuple, MSubscript, MConstant, MUnaryOp, MBoolOp, MCompare, MIfExp, MAssign, MWith, MReturn, MExpr
+    from fst.match import M, MBinOp, MCall, MList, MAttribute, MQSTAR, MTuple, MSubscript, MConstant, MUnaryOp, MBoolOp, MCompare, MIfExp, MAssign, MWith, MReturn, MExpr, MIf, MWhile
     return [
         ('assign-to-with-as', lambda: MAssign(value=M(v=...)), 'with __FST_v as res: pass'),
         ('return-to-with-as', lambda: MReturn(value=M(v=...)), 'with __FST_v as out:\n    yield_ = out'),
         ('expr-stmt-to-assign', lambda: MExpr(value=M(v=...)), 'kept = __FST_v'),
+        ('if-to-assign-and-body', lambda: MIf(test=M(t=...), body=M(b=...), orelse=[]), 'cond = __FST_t\n__FST_b'),
+        ('while-body-in-if', lambda: MWhile(test=M(t=...), body=M(b=...), orelse=[]), 'if __FST_t:\n    __FST_b\n    again()'),
         ('swap-binop', lambda: MBinOp(left=M(l=...), right=M(r=...)), '__FST_r + __FST_l'),
         ('binop-to-call', lambda: MBinOp(left=M(l=...), right=M(r=...)), 'g(__FST_r, __FST_l)'),
         ('unwrap-call', lambda: MCall(func=M(fn=...)), '__FST_fn'),
@@ -63,7 +65,8 @@ class Ref:
         try:
             self.template = ast.parse(template, mode='eval').body
         except SyntaxError:
-            self.template = ast.parse(template).body[0]
+            body = ast.parse(template).body
+            self.template = body[0] if len(body) == 1 else body        # several statements: the matched statement becomes all of them
         self.n = 0
         self.spans = []
 
@@ -78,7 +81,11 @@ class Ref:
     def conv(self, a):
         """expected AST for the original node a"""
         if isinstance(a, list):
-            return [self.conv(x) for x in a]
+            out = []
+            for x in a:
+                r = self.conv(x)
+                out.extend(r) if isinstance(r, list) and isinstance(x, ast.AST) else out.append(r)
+            return out
         if not isinstance(a, ast.AST):
             return a
         m = self.matches(a)
@@ -94,6 +101,8 @@ class Ref:
                     while lo > 0 and lines[lo - 1].lstrip().startswith('#'):
                         lo -= 1
                 self.spans.append((lo, hi))
+            if isinstance(self.template, list):
+                return self.fill_list(self.template, a, m)
             return self.fill(self.template, a, m, top=True)
         return self.rebuild(a)
 
@@ -114,6 +123,27 @@ class Ref:
             return self.rebuild(a)       # the top node is not substituted again, its children are
         return self.conv(a)
 
+    def fill_list(self, items, a, m):
+        import fst
+        out = []
+        for x in items:
+            slot = x.value if isinstance(x, ast.Expr) else x
+            if isinstance(slot, ast.Name) and slot.id.startswith('__FST_') and slot.id[6:] and (isinstance(x, ast.Expr) or not isinstance(m.tags.get(slot.id[6:]), fst.FST)):
+                cv = m.tags.get(slot.id[6:])
+                if isinstance(cv, fst.FST):            # a statement slot holding one node
+                    c = self.cap(cv.a)
+                    out.extend(c) if isinstance(c, list) else out.append(c if isinstance(c, ast.stmt) else ast.Expr(value=c))
+                    continue
+                for it in (list(cv) if cv is not None else []):
+                    it = it.matched if hasattr(it, 'matched') else it
+                    c = self.cap(it.a)
+                    out.extend(c) if isinstance(c, list) else out.append(c)     # a nested match of a several-statement template
+            elif isinstance(x, ast.AST):
+                out.append(self.fill(x, a, m))
+            else:
+                out.append(x)
+        return out
+
     def fill(self, tm, a, m, top=False):
         import fst
         from fst.view import FSTView
@@ -128,19 +158,7 @@ class Ref:
         new = type(tm)()
         for fld, v in ast.iter_fields(tm):
             if isinstance(v, list):
-                out = []
-                for x in v:
-                    if isinstance(x, ast.Name) and x.id.startswith('__FST_') and x.id[6:] and not isinstance(m.tags.get(x.id[6:]), fst.FST):
-                        cv = m.tags.get(x.id[6:])
-                        items = list(cv) if cv is not None else []
-                        for it in items:
-                            it = it.matched if hasattr(it, 'matched') else it
-                            out.append(self.cap(it.a))
-                    elif isinstance(x, ast.AST):
-                        out.append(self.fill(x, a, m))
-                    else:
-                        out.append(x)
-                setattr(new, fld, out)
+                setattr(new, fld, self.fill_list(v, a, m))
             elif isinstance(v, ast.AST):
                 setattr(new, fld, self.fill(v, a, m))
             else:
@@ -249,6 +267,32 @@ def stage_slots(ctx: Ctx):
         if elems:
             cases += [(f'r = {h}', asg, 'f(x, __FSS_v)', f'f(x, {elems})'), (f'r = {h}', asg, '[x, __FSS_v]', f'[x, {elems}]'), (f'r = {h}', asg, 'f(__FSS_v, y)', f'f({elems}, y)'),
                       (f'r = {h}', asg, 'class K(x, __FSS_v): pass', f'class K(x, {elems}): pass'), (f'r = {h}', asg, 'f(__FSS_v, k=1)', f'f({elems}, k=1)')]
+    # the whole-match slot spliced as elements (__FSS_) with nested=True: the matched node is gone, its elements are ordinary candidates
+    from fst.match import MTuple as _MT
+    from fst.match import MIf as _MIf, MWith as _MWith
+    for src, mk, template, want, counts in [('if a:\n    if b: pass\nz\n', lambda: _MIf(test=M(t=...), body=M(b=...), orelse=[]), 'cond = __FST_t\n__FST_b', 'cond = a\ncond = b\npass\nz\n', (2, 2)),
+                                            ('with a:\n    with b: c\n', lambda: _MWith(items=M(i=...), body=M(b=...)), 'enter(__FST_i)\n__FST_b\nleave()', 'enter(a)\nenter(b)\nc\nleave()\nleave()\n', (2, 2)),
+                                            ('r = [[a, b], c]', lambda: MList(), '[x, __FSS_]', 'r = [x, [x, a, b], c]', (2, 2)), ('r = ((a, b),)', lambda: _MT(), 'f(__FSS_)', 'r = f(f(a, b))', (2, 2)),
+                                            ('r = [c, [a, b]]', lambda: MList(), '[__FSS_, x]', 'r = [c, [a, b, x], x]', (2, 2)), ('r = [[a, b], c]', lambda: MList(), '[x, __FSO_]', 'r = [x, [[x, [a, b]], c]]', (2, 2)),
+                                            ('r = f(g(y))', lambda: MCall(), 'h(__FST_)', 'r = h(f(h(g(y))))', (2, 2))]:
+        root = fst.FST(src, 'exec')
+        rec = {'src': src, 'template': template, 'nested': True, 'expected': want, 'expected_counts': list(counts)}
+        try:
+            got = root.subn(mk(), template, True)[1:]
+        except Exception as e:
+            ctx.violation(f'slots-raise|{type(e).__name__}', 'sub() raised on a slot combination whose result is a valid program', {**rec, 'error': repr(e)[:300]})
+            continue
+        ctx.tick(('slots-nested', src, template), 'sub:slots-nested')
+        d = reparse_diffs(root) or cmp_ast(root.a, ast.parse(want), positions=False, ctx=False)
+        if d or tuple(got) != counts:
+            ctx.violation('sub-struct|several-statement-template-nested' if '\n' in template else 'sub-struct|whole-match-slice-nested',
+                          'with nested=True not every match was substituted when the whole match is spliced / wrapped by the template or the template is several statements (or the counts are not the substitutions performed)',
+                          {**rec, 'after': root.src, 'counts': list(got), 'diffs': d})
+    # slots inside string constants of the template are filled with the (escaped) source of the capture
+    from fst.match import MBinOp, MName, MAttribute
+    bop = lambda: MBinOp(left=M(l=...), right=M(r=...))
+    cases += [('x = a + b', bop, 'log("__FST_l plus __FST_r")', 'x = log("a plus b")'), ('x = a + b', bop, 'log(f"{__FST_r:>__FST_l} = __FST_")', 'x = log(f"{b:>a} = a + b")'),
+              ('x = a.b', lambda: MAttribute(), "t('''q: __FST_''', b'__FST_')", "x = t('''q: a.b''', b'a.b')"), ('y = c * d', bop, '"__FST_l" "__FST_r"', 'y = "c" "d"')]
     for src, mk, template, want in cases:
         if want is None:
             continue
@@ -265,7 +309,8 @@ def stage_slots(ctx: Ctx):
             ctx.tick(('slots', src, template, nested), 'sub:slots')
             d = reparse_diffs(root)
             if d:
-                ctx.violation('sub-c01|slots', 'the tree after sub() does not re-parse to itself', {**rec, 'after': root.src, 'diffs': d})
+                in_string = bool(re.search(r'''["'][^"']*__FS[TSO]_''', template))
+                ctx.violation('sub-c01|string-slot' if in_string and all('.value' in x for x in d) else 'sub-c01|slots', 'the tree after sub() does not re-parse to itself', {**rec, 'after': root.src, 'diffs': d})
                 continue
             d = cmp_ast(root.a, ast.parse(want), positions=False, ctx=False)
             if d:
